@@ -45,7 +45,8 @@ def report_case(draw):
     ops = []
     for i in range(draw(st.integers(1, 3))):
         ops.append({
-            "path": f"/r{i}",
+            # literal template text reaches the recorded URI as it is (requests leaves these characters alone)
+            "path": f"/r{i}" + draw(st.sampled_from(["", "", "", "'s", ":a", "!x", "*", "(a)", "''", ",y;z", "=$"])),
             "status": draw(st.sampled_from([200, 200, 500, 404, 204])),
             "body": draw(st.sampled_from(BODIES)),
             "content_type": draw(st.sampled_from(["application/json", "text/plain", "application/octet-stream", "text/plain; charset=latin-1"])),
@@ -96,7 +97,7 @@ def make_script(inp):
             if inp["link_target"] == "drop":
                 return loopback.Reply(close=True)
             return loopback.json_reply(500 if inp["link_target"] == "500" else 200, {"id": 7})
-        op = by_prefix.get("/" + req.path.split("/")[1])
+        op = by_prefix.get("/" + req.target.split("?")[0].split("/")[1])
         if op is None:
             return loopback.json_reply(200, {})
         if op["drop"] and ordinal % 3 == 2:
